@@ -1208,9 +1208,15 @@ func sliceIndexes(args []cty.Value) (int, int, bool, error) {
 	list, _ := args[0].Unmark()
 
 	// If it's a tuple then we always know the length by the type, but collections might be unknown or have unknown length
-	if list.Type().IsTupleType() || list.Length().IsKnown() {
+	if list.Type().IsTupleType() {
 		length = list.LengthInt()
 		lengthKnown = true
+	} else if l := list.Length(); l.IsKnown() {
+		// The length can be known even when the list itself is not, if its
+		// refined length bounds leave only one possibility.
+		if err := gocty.FromCtyValue(l, &length); err == nil {
+			lengthKnown = true
+		}
 	}
 
 	if args[1].IsKnown() {
